@@ -127,6 +127,7 @@ func init() {
 				{Dir: "netutil", Func: "VerifC01Bytes", Opts: o},
 				{Dir: "netutil", Func: "VerifC01Names", Opts: o},
 				{Dir: "netutil", Func: "VerifC01ARPA", Opts: o},
+				{Dir: "netutil", Func: "VerifC01ARPAText", Opts: o},
 				{Dir: "netutil", Func: "VerifC01Nibbles", Opts: o},
 				{Dir: "netutil", Func: "VerifC01IPs", Opts: o},
 				{Dir: "netutil", Func: "VerifC01Addrs", Opts: o},
@@ -142,11 +143,11 @@ func init() {
 			}
 			return map[string]string{
 				"byte strings":   "every byte string (all 256 values) of length 0.." + n + " for the functions that do not go through idna.ToASCII; every ASCII string of that length (no 'xn--' label) for those that do",
-				"ARPA names":     "X ++ root for every ASCII X of length 0.." + n + " (4 spellings of the roots, joint inside X); ip6.arpa names of 0.." + k + " one-byte labels with one label 2..3 bytes wide at any position",
+				"ARPA names":     "X ++ root for every ASCII X of length 0.." + n + " (4 spellings of the roots, joint inside X); ip6.arpa names of 0.." + k + " one-byte labels with one label 2..3 bytes wide at any position; address-shaped texts before the roots: optional '::', 0..2 hex fields of 1..2 digits each followed by ':' or '::', 0..4 decimal labels of 1..2 digits, optional %zone byte",
 				"net.IP / masks": "lengths nil, 0, 1, 3, 4, 5, 15, 16, 17 with symbolic bytes; masks nil, 0, 3, 4, 16, 17; fam in {IPv4, IPv6} (documented precondition); net.Addr in {nil, TCP, UDP, IP, Unix}",
 				"netip values":   "zero Addr, IPv4, IPv6, IPv4-mapped, zoned (all address bits symbolic); prefix lengths 0..255; runes: all 32-bit values",
 				"hostsfile":      "Record.UnmarshalText on every ASCII line of length 0..4|6; MarshalText on symbolic addresses and names; storage accessors",
-				"urlutil":        "Parse / UnmarshalText / UnmarshalJSON(string token, null, empty) on every byte string of length 0..3|5; validators and redaction on symbolic url.URL fields",
+				"urlutil":        "Parse / UnmarshalText / UnmarshalJSON(string token, null, empty) on every byte string of length 0..3|4; validators and redaction on symbolic url.URL fields",
 				"stringutil":     "ContainsFold(|s|<=4|5, |sub|<=2|3), SplitTrimmed(|s|<=4|6, |sep|<=2): quick 7-bit bytes, thorough all bytes",
 			}
 		},
